@@ -6,7 +6,7 @@ the expected result as a term pattern over that variant's fields.  The function'
 is reconstructed as a gated term  γ(discr(scrutinee); variant -> value)  and every arm is
 compared with its row.  Exhaustiveness is checked against the enum definition.
 """
-from . import mir
+from . import mir, tdctx
 from .base import (inst, OK, VIOLATION, UNDECIDED, P, C, F, K, ANY, Agg, AggV, VF, T, match, strip,
                    gamma_arms, bool_arms, callee_is)
 from .facts import CheckerError
@@ -306,6 +306,9 @@ def wmc_homomorphism(prog):
     for v, (_, op, a, b) in exp.items():
         t = arms.get(v)
         e = None
+        if t is None:
+            out.append(inst("DP", "%s:%s" % (cl.npath, v), UNDECIDED, cl, None, "arm for %s not recognised" % v))
+            continue
         if not (isinstance(t, tuple) and t[0] == "bin" and t[1] == op):
             e = "%s must be combined with %s, found %s" % (v, op, show(t))
         else:
@@ -316,6 +319,9 @@ def wmc_homomorphism(prog):
     for v, fld in (("True", "one"), ("False", "zero")):
         t = arms.get(v)
         e = None
+        if t is None:
+            out.append(inst("DP", "%s:%s" % (cl.npath, v), UNDECIDED, cl, None, "arm for %s not recognised" % v))
+            continue
         if not (isinstance(t, tuple) and t[0] == "field" and t[2] == fld and t[1] == ("upvar", "params")):
             # also accept T::one()/T::zero()
             if not (isinstance(t, tuple) and t[0] == "call" and t[1].name == fld):
@@ -419,32 +425,46 @@ def topdown_unsat(prog):
             e = e or match(C("false_ptr"), t)
     out.append(inst("DP", fn.npath + ":initially-unsat", VIOLATION if e else OK, fn, None,
                     e or "SATSolver::new == None ↦ false_ptr"))
-    fn = prog.find1(name="topdown_h", in_trait="builder::decision_nnf::builder::DecisionNNFBuilder", unit="rsdd-lib")
-    te = fn.terms
     # the two children of the decision node are matches on decide(..) whose UNSAT arm is false_ptr
-    n = 0
-    seen = set()
-    for t in [cs.term for cs in te.calls] + [a for cs in te.calls for a in cs.args]:
-        for x in mir.subterms(t):
-            if x[0] == "gamma" and x[1][0] == "discr" and mir.is_call(x[1][1], "decide") and id(x) not in seen:
-                if x in seen:
+    top, ctxs = tdctx.contexts(prog)
+    if len(ctxs) < 2:
+        out.append(inst("DP", "%s:UNSAT@decide" % top.npath, UNDECIDED, top, None,
+                        "expected one decide per polarity in topdown_h or in a helper it calls, found %d" % len(ctxs)))
+    for ctx in ctxs:
+        fn, te = ctx.fn, ctx.fn.terms
+        key = "%s:UNSAT@decide(%s)" % (top.npath, ctx.pol)
+        seen = []
+        roots = [cs.term for cs in te.calls] + [a for cs in te.calls for a in cs.args] + ([te.ret] if te.ret is not None else [])
+        for t in roots:
+            for x in mir.subterms(t):
+                if x[0] == "gamma" and x[1] == ("discr", ctx.cs.term) and x not in seen:
+                    seen.append(x)
+        # values selected under UNSAT: the UNSAT arm of a match on the result, or the alternative of a join that
+        # comes from a block where the result is known to be UNSAT (an early `return` from that arm)
+        under = []
+        for x in seen:
+            arms = gamma_arms(te, x) or {}
+            if "UNSAT" in arms:
+                under.append(arms["UNSAT"])
+            for k2, v2 in arms.items():
+                if isinstance(k2, tuple) and k2[0] == "rest" and "UNSAT" in k2[1]:
+                    under.append(v2)
+        for t in roots:
+            for x in mir.subterms(t):
+                if x[0] != "phi":
                     continue
-                seen.add(x)
-    for x in seen:
-        arms = gamma_arms(te, x) or {}
-        dec = x[1][1]
-        pol = dec[2][1][2][1] if mir.is_call(dec[2][1], "new") else None
-        pol_s = pol[2] if isinstance(pol, tuple) and pol[0] == "const" else "?"
+                for pb, alt in x[2]:
+                    pbn = int(str(pb).replace("bb", "")) if not isinstance(pb, int) else pb
+                    if any(c == ("discr", ctx.cs.term) and vm and vm.get(v) == "UNSAT" for c, v, vm, _ in te.facts_at(pbn)):
+                        if alt not in under:
+                            under.append(alt)
+        if not under:
+            out.append(inst("DP", key, UNDECIDED, fn, ctx.cs.line, "no value is selected by the UNSAT result of this decide"))
+            continue
         e = None
-        if "UNSAT" not in arms:
-            e = "decide result has no UNSAT arm"
-        else:
-            e = match(C("false_ptr"), arms["UNSAT"])
-        n += 1
-        out.append(inst("DP", "%s:UNSAT@decide(%s)" % (fn.npath, pol_s), VIOLATION if e else OK, fn, None,
-                        e or "DecisionResult::UNSAT ↦ false_ptr"))
-    if n < 2:
-        raise CheckerError("topdown_h: expected two decide(..) matches, found %d" % n)
+        for u in under:
+            e = e or match(C("false_ptr"), u)
+        out.append(inst("DP", key, VIOLATION if e else OK, fn, ctx.cs.line, e or "DecisionResult::UNSAT ↦ false_ptr"))
     return out
 
 
